@@ -18,10 +18,13 @@ Proof.
   pose proof (uvarint_len _ _ _ E ltac:(lia)). lia.
 Qed.
 
+Lemma guard_le0 : forall sz, guard_fires g_le0 sz = (sz <=? 0)%Z.
+Proof. intros sz. unfold guard_fires, g_le0. simpl. lia. Qed.
+
 (** newCompressedPostingIterator: no panic, the iterator's blob is a suffix of the list *)
-Lemma cpi_new_total : forall b, exists it, cpi_new b = Ok it /\ (length (cpi_blob it) <= length b)%nat.
+Lemma cpi_new_total : forall b, exists it, cpi_new true b = Ok it /\ (length (cpi_blob it) <= length b)%nat.
 Proof.
-  intros b. unfold cpi_new. destruct (uvarint b) as [d sz] eqn:E.
+  intros b. unfold cpi_new. destruct (uvarint b) as [d sz] eqn:E. simpl andb.
   destruct (sz <? 0)%Z eqn:Es.
   - eexists. split; [reflexivity|simpl; lia].
   - pose proof (uvarint_nonneg_le _ _ _ E ltac:(lia)) as Hle.
@@ -31,7 +34,7 @@ Qed.
 (** the loop of next with the guard `sz <= 0`: when the fuel covers the blob it is never exhausted; every iteration
     consumes at least one byte: iterations + remaining bytes <= bytes at the start *)
 Lemma cpi_loop_total : forall fuel limit it s, (length (cpi_blob it) <= fuel)%nat ->
-  exists it' s', cpi_loop true fuel limit it s = Ok (it', s')
+  exists it' s', cpi_loop g_le0 fuel limit it s = Ok (it', s')
     /\ s' + nlen (cpi_blob it') <= s + nlen (cpi_blob it) /\ (length (cpi_blob it') <= length (cpi_blob it))%nat.
 Proof.
   induction fuel as [|f IH]; intros limit it s Hf.
@@ -41,7 +44,7 @@ Proof.
       [|exists it, s; split; [reflexivity|lia]].
     assert (Hne : length (cpi_blob it) <> 0%nat).
     { intro H0. apply blob_nil_len in H0. rewrite H0, Bool.andb_false_r in Ec. discriminate. }
-    destruct (uvarint (cpi_blob it)) as [delta sz] eqn:Eu.
+    destruct (uvarint (cpi_blob it)) as [delta sz] eqn:Eu. rewrite guard_le0.
     destruct (sz <=? 0)%Z eqn:Es.
     + eexists _, _. split; [reflexivity|]. simpl. unfold nlen. simpl. lia.
     + pose proof (uvarint_len _ _ _ Eu ltac:(lia)) as Hm.
@@ -53,7 +56,7 @@ Proof.
 Qed.
 
 Lemma cpi_next_total : forall limit it,
-  exists it' s, cpi_next true limit it = Ok (it', s) /\ s + nlen (cpi_blob it') <= nlen (cpi_blob it).
+  exists it' s, cpi_next g_le0 limit it = Ok (it', s) /\ s + nlen (cpi_blob it') <= nlen (cpi_blob it).
 Proof.
   intros limit it. unfold cpi_next. destruct (limit =? MaxU32).
   - eexists _, _. split; [reflexivity|]. unfold nlen. simpl. lia.
@@ -66,7 +69,7 @@ Qed.
 
 (** ANY sequence of next calls: all loop iterations together are paid for by bytes of the list *)
 Lemma cpi_run_total : forall limits it s0,
-  exists it' s, cpi_run true limits it s0 = Ok (it', s) /\ s + nlen (cpi_blob it') <= s0 + nlen (cpi_blob it).
+  exists it' s, cpi_run g_le0 limits it s0 = Ok (it', s) /\ s + nlen (cpi_blob it') <= s0 + nlen (cpi_blob it).
 Proof.
   induction limits as [|l r IH]; intros it s0.
   - exists it, s0. split; [reflexivity|lia].
@@ -75,7 +78,7 @@ Proof.
 Qed.
 
 (** the complete walk: first() after next(first()) is MaxUint32 or the blob got shorter *)
-Lemma cpi_next_self : forall it it' s, cpi_first it <> MaxU32 -> cpi_next true (cpi_first it) it = Ok (it', s) ->
+Lemma cpi_next_self : forall it it' s, cpi_first it <> MaxU32 -> cpi_next g_le0 (cpi_first it) it = Ok (it', s) ->
   cpi_first it' = MaxU32 \/ (length (cpi_blob it') < length (cpi_blob it))%nat.
 Proof.
   intros it it' s Hne E. unfold cpi_next in E.
@@ -94,13 +97,13 @@ Proof.
       assert (Hn : blob_nil (cpi_blob it) = false).
       { destruct (blob_nil (cpi_blob it)) eqn:Hb'; [apply blob_nil_len in Hb'; lia|reflexivity]. }
       rewrite Hn, N.leb_refl in E1. simpl andb in E1. cbv iota in E1.
-      destruct (uvarint (cpi_blob it)) as [delta sz] eqn:Eu.
+      destruct (uvarint (cpi_blob it)) as [delta sz] eqn:Eu. rewrite guard_le0 in E1.
       destruct (sz <=? 0)%Z eqn:Es.
       * inversion E1; subst. right. simpl. lia.
       * pose proof (uvarint_len _ _ _ Eu ltac:(lia)) as Hm.
         rewrite slice_from_z_ok in E1 by lia. simpl obind in E1.
         set (it2 := mkCpi _ _ _) in E1.
-        match type of E1 with cpi_loop true n _ it2 ?s0 = _ =>
+        match type of E1 with cpi_loop g_le0 n _ it2 ?s0 = _ =>
           destruct (cpi_loop_total n (cpi_first it) it2 s0) as (it3 & s3 & E3 & _ & Hb3) end.
         { unfold it2. simpl. rewrite skipn_length. lia. }
         rewrite E3 in E1. inversion E1; subst it3 s3. right.
@@ -108,7 +111,7 @@ Proof.
 Qed.
 
 Lemma cpi_walk_total : forall fuel it, (length (cpi_blob it) < fuel)%nat ->
-  exists l, cpi_walk true fuel it = Ok l /\ (length l <= fuel)%nat.
+  exists l, cpi_walk g_le0 fuel it = Ok l /\ (length l <= fuel)%nat.
 Proof.
   induction fuel as [|f IH]; intros it Hf; [lia|].
   cbn [cpi_walk]. destruct (cpi_first it =? MaxU32) eqn:Em; [exists []; split; [reflexivity|simpl; lia]|].
@@ -120,7 +123,7 @@ Proof.
   - destruct (IH it1 ltac:(lia)) as (l & El & Hl). rewrite El. simpl. eexists. split; [reflexivity|simpl; lia].
 Qed.
 
-Lemma postings_of_total : forall b, exists l, postings_of true b = Ok l /\ (length l <= S (length b))%nat.
+Lemma postings_of_total : forall b, exists l, postings_of g_le0 true b = Ok l /\ (length l <= S (length b))%nat.
 Proof.
   intros b. unfold postings_of. destruct (cpi_new_total b) as (it & E & Hl). rewrite E. simpl obind.
   destruct (cpi_walk_total (S (length (cpi_blob it))) it ltac:(lia)) as (l & El & Hll). exists l. split; [exact El|lia].
@@ -145,10 +148,10 @@ Qed.
 (** the search-time use of a posting list of ANY loaded shard, for ANY ngram and ANY sequence of limits: a result or a
     read error; all loop iterations of the iterator together are bounded by the length of the list *)
 Lemma posting_walk_safe : forall d g limits,
-  (exists e, posting_walk d g limits = Err e /\ shard_ngram_search d g = Err e)
-  \/ (exists blob it s, shard_ngram_search d g = Ok blob /\ posting_walk d g limits = Ok (it, s) /\ s <= nlen blob).
+  (exists e, posting_walk_g g_le0 true d g limits = Err e /\ shard_ngram_search d g = Err e)
+  \/ (exists blob it s, shard_ngram_search d g = Ok blob /\ posting_walk_g g_le0 true d g limits = Ok (it, s) /\ s <= nlen blob).
 Proof.
-  intros d g limits. unfold posting_walk.
+  intros d g limits. unfold posting_walk_g.
   destruct (shard_ngram_search d g) as [blob|e|w] eqn:Es.
   - right. cbn [obind]. destruct (cpi_new_total blob) as (it0 & E0 & H0). rewrite E0. cbn [obind].
     destruct (cpi_run_total limits it0 0) as (it & s & E & H). exists blob, it, s. repeat split; auto. unfold nlen in *. lia.
@@ -156,10 +159,10 @@ Proof.
   - exfalso. exact (shard_ngram_search_total d g w Es).
 Qed.
 Lemma name_posting_walk_safe : forall d g limits,
-  (exists e, name_posting_walk d g limits = Err e /\ shard_name_ngram_search d g = Err e)
-  \/ (exists blob it s, shard_name_ngram_search d g = Ok blob /\ name_posting_walk d g limits = Ok (it, s) /\ s <= nlen blob).
+  (exists e, name_posting_walk_g g_le0 true d g limits = Err e /\ shard_name_ngram_search d g = Err e)
+  \/ (exists blob it s, shard_name_ngram_search d g = Ok blob /\ name_posting_walk_g g_le0 true d g limits = Ok (it, s) /\ s <= nlen blob).
 Proof.
-  intros d g limits. unfold name_posting_walk.
+  intros d g limits. unfold name_posting_walk_g.
   destruct (shard_name_ngram_search d g) as [blob|e|w] eqn:Es.
   - right. cbn [obind]. destruct (cpi_new_total blob) as (it0 & E0 & H0). rewrite E0. cbn [obind].
     destruct (cpi_run_total limits it0 0) as (it & s & E & H). exists blob, it, s. repeat split; auto. unfold nlen in *. lia.
@@ -168,12 +171,12 @@ Proof.
 Qed.
 
 Lemma posting_walk_class : forall d g limits,
-  classify_search (posting_walk d g limits) = SOk \/ classify_search (posting_walk d g limits) = SErr.
+  classify_search (posting_walk_g g_le0 true d g limits) = SOk \/ classify_search (posting_walk_g g_le0 true d g limits) = SErr.
 Proof.
   intros d g limits. destruct (posting_walk_safe d g limits) as [(e & E & _)|(b & it & s & _ & E & _)]; rewrite E; simpl; auto.
 Qed.
 Lemma name_posting_walk_class : forall d g limits,
-  classify_search (name_posting_walk d g limits) = SOk \/ classify_search (name_posting_walk d g limits) = SErr.
+  classify_search (name_posting_walk_g g_le0 true d g limits) = SOk \/ classify_search (name_posting_walk_g g_le0 true d g limits) = SErr.
 Proof.
   intros d g limits. destruct (name_posting_walk_safe d g limits) as [(e & E & _)|(b & it & s & _ & E & _)]; rewrite E; simpl; auto.
 Qed.
@@ -181,21 +184,21 @@ Qed.
 (** REFUTED for the guard `sz < 0`: a list that ends inside a varint makes the loop spin (the state no longer
     changes: the iteration returns to the same iterator) *)
 Lemma cpi_guard_lt0_diverges :
-  (exists it, cpi_new wit_posting_trunc = Ok it /\ cpi_run false [8; 22] it 0 = Panic P_DIVERGE)
-  /\ postings_of false wit_posting_trunc = Panic P_DIVERGE
-  /\ postings_of true wit_posting_trunc = Ok [8; 22]
-  /\ postings_of true wit_posting_overflow = Ok [8].
+  (exists it, cpi_new true wit_posting_trunc = Ok it /\ cpi_run g_lt0 [8; 22] it 0 = Panic P_DIVERGE)
+  /\ postings_of g_lt0 true wit_posting_trunc = Panic P_DIVERGE
+  /\ postings_of g_le0 true wit_posting_trunc = Ok [8; 22]
+  /\ postings_of g_le0 true wit_posting_overflow = Ok [8].
 Proof. vm_compute. split; [eexists; split; reflexivity|repeat split; reflexivity]. Qed.
 
 (** ... and the spinning is real, not an artefact of the fuel: with the guard `sz < 0` one iteration on a blob that
     is a truncated varint leaves the iterator unchanged *)
 Lemma cpi_guard_lt0_fixpoint : forall fuel limit it s d, uvarint (cpi_blob it) = (d, 0%Z) ->
   cpi_first it <= limit -> cpi_blob it <> [] ->
-  cpi_loop false (S fuel) limit it s
-  = cpi_loop false fuel limit (mkCpi ((cpi_first it + d mod W32) mod W32) (cpi_blob it) (cpi_loaded it + 0)) (s + 1).
+  cpi_loop g_lt0 (S fuel) limit it s
+  = cpi_loop g_lt0 fuel limit (mkCpi ((cpi_first it + d mod W32) mod W32) (cpi_blob it) (cpi_loaded it + 0)) (s + 1).
 Proof.
   intros fuel limit it s d Eu Hl Hne. cbn [cpi_loop].
   assert (Hn : blob_nil (cpi_blob it) = false) by (destruct (cpi_blob it); [contradiction|reflexivity]).
   rewrite Hn. replace (cpi_first it <=? limit) with true by lia. simpl andb. cbv iota.
-  rewrite Eu. replace (0 <? 0)%Z with false by reflexivity. rewrite slice_from_z_ok by lia. reflexivity.
+  rewrite Eu. unfold guard_fires, g_lt0. simpl. rewrite slice_from_z_ok by lia. reflexivity.
 Qed.
